@@ -47,7 +47,17 @@ def all_cells_loop(fn, fold):
             nl_names.add(s.targets[0].id)
     if outer is inner:
         return False, "a single loop over '%s'" % norm_src(inner.iter)
-    o_it, i_it = norm_src(outer.iter), norm_src(inner.iter)
+    def unordered(e):
+        # the candidate SET does not depend on the order of enumeration: reversed(X), list(X), tuple(X), X[::-1] enumerate X
+        while True:
+            if isinstance(e, ast.Call) and isinstance(e.func, ast.Name) and e.func.id in ("reversed", "list", "tuple") and len(e.args) == 1 and not e.keywords:
+                e = e.args[0]
+            elif isinstance(e, ast.Subscript) and isinstance(e.slice, ast.Slice) and e.slice.lower is None and e.slice.upper is None and \
+                    (e.slice.step is None or norm_src(e.slice.step) == "-1"):
+                e = e.value
+            else:
+                return e
+    o_it, i_it = norm_src(unordered(outer.iter)), norm_src(unordered(inner.iter))
     if o_it in nl_names and isinstance(outer.target, ast.Name) and i_it == outer.target.id:
         return True, "for layer in node_list: for cell in layer"
     for nl in nl_names:
@@ -260,9 +270,20 @@ def check_wrappers(ctx):
             why += "; not guarded by phase > N"
     ctx.ob("R07-ARGMAX", okg, c.file, "GPO.receive_reward", "final recommendation fixed when all phases are over", why, rr.lineno)
     pull = model.own_method("GPO", "pull")
-    first = strip_doc(pull.body)[0]
-    okp = isinstance(first, ast.If) and norm_src(first.test) == "self.phase > self.N" and len(first.body) == 1 and norm_src(first.body[0]) == "return self.goodx"
-    ctx.ob("R07-ARGMAX", okp, c.file, "GPO.pull", "once finished, pull returns the recommendation", norm_src(first)[:80], pull.lineno)
+    # on every path of pull entered in the finished state (phase > N) the stored recommendation is returned and nothing else
+    # happens (no learner is asked, nothing is stored); read on the paths, so the shape of the code is irrelevant
+    from .. import credit as CR
+    from .. import routes as RT
+    pf, pparams, ppaths, pfns = CR.method_paths(model, "GPO", "pull", entry=True)
+    fin = [p for p in ppaths if RT.entry_state(p).get("self.N < self.phase") is True]
+    undecided = [p for p in ppaths if "self.N < self.phase" not in RT.entry_state(p)]
+    bad = [p for p in fin if [(e[0], e[1]) for e in p.events] != [("ret", "self.goodx")] or p.writes]
+    okp = bool(fin) and not bad and not undecided
+    ctx.ob("R07-ARGMAX", okp, c.file, "GPO.pull", "once finished, pull returns the recommendation",
+           "%d finished-state path(s): each returns self.goodx, asks no learner, stores nothing" % len(fin) if okp else
+           ("no path of pull is guarded by phase > N" if not fin else
+            ("%d path(s) do not consult the finished test" % len(undecided) if undecided else
+             "in the finished state pull does %s and stores %s" % ([(e[0], e[1]) for e in bad[0].events], [w[0] for w in bad[0].writes]))), pull.lineno)
     # PCT / VPCT: pure delegation to a GPO built with the caller's arguments.  The constructor chain is followed through
     # super().__init__ calls (arguments bound, defaults filled in) and own one-line methods are resolved on the instance's
     # class, so a wrapper may inherit the forwards and the construction from another wrapper.
